@@ -253,8 +253,8 @@ def accepts(t, v):
         if t[1] is None:
             return True
         return any(accepts(x, v) for x in t[1])
-    if k in ("mult", "pmult"):
-        return isinstance(v, int) and v % t[1] == 0 and (k == "mult" or v > 0)
+    if k in ("mult", "nmult"):
+        return isinstance(v, int) and ((v % t[1] == 0) == (k == "mult"))
     raise ModelGap(t)
 
 
@@ -424,7 +424,7 @@ def sat(t):
         if any(r is True for r in rs):
             return True
         return None if any(r is None for r in rs) else False
-    if k in ("mult", "pmult"):
+    if k in ("mult", "nmult"):
         return True
     return None
 
@@ -568,8 +568,8 @@ def _witnesses(t, limit):
     k = t[0]
     if k == "none":
         return [None]
-    if k in ("mult", "pmult"):
-        return [t[1] * 2, t[1], t[1] * 5] + ([0, -t[1]] if k == "mult" else [])
+    if k in ("mult", "nmult"):
+        return [t[1] * 2, t[1], t[1] * 5, 0, -t[1]] if k == "mult" else [t[1] * 2 + 1, 1, -1, t[1] - 1]
     if k in SCALARS:
         return _w_scalar(k, props_of(t[1]))
     if k == "list":
